@@ -196,6 +196,14 @@ def judge(case, ctx, prefix='C06'):
         if raised(z3) or abs(complex(z3) - z) > 2 * tol:
             ctx.violation(f'{prefix}/depends-on-reference-node', f'Z({a!r},{b!r}) = {z!r} with reference {desc["ref"]!r} but {z3!r} with reference {newg!r}', {})
         ctx.count('relations_checked')
+        # a user-supplied node numbering (node_index_mapper) must not change a port impedance
+        from .. import mappers
+        from CircuitCalculator.Network.NodalAnalysis import label_mapping as lm
+        nm = mappers.permuted(lm.default_node_mapper, ctx.rng.getrandbits(30))
+        z4 = call(na.open_circuit_impedance, net, a, b, nm)
+        ctx.count('custom_numbering_ports')
+        if raised(z4) or abs(complex(z4) - zref) > tol:
+            ctx.violation(f'{prefix}/custom-node-numbering/open_circuit_impedance', f'Z({a!r},{b!r}) = {z4 if raised(z4) else complex(z4)!r} with a permuted node numbering, exact {zref!r}', {})
         if refd is None:
             continue
         # Thevenin relations: Isc = Voc / Zth, load test through the library's own solver
@@ -269,6 +277,12 @@ def judge(case, ctx, prefix='C06'):
             ctx.violation(f'{prefix}/element_impedance/raised/{z.key}/{isl}', f'element_impedance({b["id"]!r}) raised {z.text}; exact {zref!r}', {})
         elif abs(complex(z) - zref) > tol:
             ctx.violation(f'{prefix}/element_impedance/mismatch', f'element_impedance({b["id"]!r}) = {complex(z)!r}, exact {zref!r}', {})
+        else:
+            from .. import mappers
+            from CircuitCalculator.Network.NodalAnalysis import label_mapping as lm
+            z5 = call(na.element_impedance, net, b['id'], mappers.permuted(lm.default_node_mapper, ctx.rng.getrandbits(30)))
+            if raised(z5) or abs(complex(z5) - zref) > tol:
+                ctx.violation(f'{prefix}/custom-node-numbering/element_impedance', f'element_impedance({b["id"]!r}) = {z5 if raised(z5) else complex(z5)!r} with a permuted node numbering, exact {zref!r}', {})
     if judged_any:
         ctx.sample(case)
 
